@@ -689,6 +689,28 @@ var DotStruct = DotType{S: "ds"}
 var DotPtr = &DotStruct
 `
 
+// c15FilesOpt: dotNamedP declares the dot-imported package under the same package NAME as the injector's package;
+// twoFiles puts the second half of the rows, with an injector of their own, into a second injector file.
+func c15FilesOpt(rows []c15Row, dotNamedP, twoFiles bool) map[string]string {
+	files := c15Files(rows)
+	if dotNamedP {
+		files["dotpkg/dot.go"] = strings.Replace(files["dotpkg/dot.go"], "package dotpkg", "package p", 1)
+	}
+	if twoFiles && len(rows) >= 2 {
+		first := c15Files(rows[:len(rows)/2])
+		second := c15Files(rows[len(rows)/2:])
+		files["wire.go"] = first["wire.go"]
+		w2 := second["wire.go"]
+		w2 = strings.Replace(w2, "func InitThing() Thing", "func InitThing2() Thing", 1)
+		w2 = strings.Replace(w2, "func newThing(a int, b bcfg.B) Thing { return Thing{A: a, B: b.V + DotConst*0} }\n", "var second = DotConst\n", 1)
+		if dotNamedP {
+			// keep as is
+		}
+		files["wire_second.go"] = w2
+	}
+	return files
+}
+
 func c15Files(rows []c15Row) map[string]string {
 	var decls strings.Builder
 	var calls strings.Builder
@@ -725,7 +747,7 @@ func copiedDecls(f *ast.File) []ast.Decl {
 			}
 			out = append(out, d)
 		case *ast.FuncDecl:
-			if d.Name.Name == "InitThing" && d.Recv == nil {
+			if (d.Name.Name == "InitThing" || d.Name.Name == "InitThing2") && d.Recv == nil {
 				continue
 			}
 			out = append(out, d)
@@ -776,12 +798,22 @@ func judgeC15(files map[string]string) func(r *h.Result) []h.Violation {
 		if err != nil {
 			return []h.Violation{{Symptom: "harness-parse", Detail: err.Error()}}
 		}
+		var orig2 *ast.File
+		if src2, ok := files["wire_second.go"]; ok {
+			orig2, err = parser.ParseFile(fset, "wire_second.go", strings.ReplaceAll(src2, "{{ROOT}}", "x"), parser.ParseComments)
+			if err != nil {
+				return []h.Violation{{Symptom: "harness-parse", Detail: err.Error()}}
+			}
+		}
 		gf, err := parser.ParseFile(fset, "wire_gen.go", gen, parser.ParseComments)
 		if err != nil {
 			vs = append(vs, h.Violation{Symptom: "output-does-not-parse", Detail: err.Error() + "\n" + clip(gen, 2000)})
 			return vs
 		}
 		want := copiedDecls(orig)
+		if orig2 != nil {
+			want = append(want, copiedDecls(orig2)...)
+		}
 		var got []ast.Decl
 		for _, d := range copiedDecls(gf) {
 			// the generated file starts with the injector implementation; skip package-level value vars wire adds
@@ -850,6 +882,10 @@ func checkC15(c *h.Check) {
 	}
 	all := c15Files(rows)
 	cases = append(cases, &h.Case{ID: "C15/all-rows", Files: all, Drive: true, Judge: judgeC15(all)})
+	dotp := c15FilesOpt(rows, true, false)
+	cases = append(cases, &h.Case{ID: "C15/all-rows/dot-package-named-like-the-injector-package", Files: dotp, Drive: true, Judge: judgeC15(dotp)})
+	two := c15FilesOpt(rows, false, true)
+	cases = append(cases, &h.Case{ID: "C15/all-rows/two-injector-files", Files: two, Drive: true, Judge: judgeC15(two)})
 	for _, cs := range cases {
 		c.NoteProgram(cs.Files)
 	}
